@@ -48,6 +48,7 @@ def _cut_advance(E, call):
         nm = E.ctx.fresh_name('early_terms')
         E.ctx.assume(z3.Int(nm + '#card') >= 1)
         st = E.set_path(st, [('field', ST['early_terminations'], 'BitField')], models_fvm.BitFieldV(nm))
+        E.ctx.env['advance_flagged'] = True
     E.store(call.args[0], st)
     names = ['power_delta', 'previously_faulty', 'detected_faulty', 'total_faulty', 'live']
     vals = {n: (z3.Int('adv.%s.raw' % n), z3.Int('adv.%s.qa' % n)) for n in names}
@@ -74,7 +75,9 @@ def _cut_amount(name):
 
 def _cut_pet(E, call):
     E.ctx.env['pet_called'] = True
-    return ok(E.ctx.fresh_bool('process_early_terminations.more'), call.dest_ty)
+    more = E.ctx.fresh_bool('process_early_terminations.more')
+    E.ctx.env['pet_more'] = more
+    return ok(more, call.dest_ty)
 
 
 def run_hpd(nvest, sends_ok=True, focus='all'):
@@ -87,6 +90,8 @@ def run_hpd(nvest, sends_ok=True, focus='all'):
         rt.state = pre['st']
         E.ctx.assume(rt.balance >= pre['pcd'] + pre['lf'] + pre['ip'])
         E.ctx.env['balance0'] = rt.balance
+        et0 = E.deref(fget(E, pre['st'], SF()['early_terminations'], 'BitField'))
+        E.ctx.env['et0_empty'] = models_fvm.bitfield_empty(E, et0)
         if focus == 'money':
             E.ctx.assume(z3.Not(C13.bz(C13.view(E, pre['info'])['pw_some'])))
         E.cuts['State::cleanup_expired_pre_commits'] = _cut_cleanup
@@ -155,6 +160,16 @@ def props_hpd(E, res):
             P.append(tagged('C05', 'early-termination work is scheduled for the next epoch', ev_epoch == rt.epoch + 1))
         else:
             P.append(tagged('C05', 'cron payload type known', False))
+    # sectors terminated early by this deadline (fault expiry) must get their termination fee assessed: when no
+    # early-termination work was pending before (so no callback for it exists), the work is started now and, if it does not
+    # finish, continued by a callback at the next epoch
+    if env.get('advance_flagged'):
+        n_et = sum(1 for x in P if 'early-termination work is scheduled for the next epoch' in x[0])
+        more = env.get('pet_more')
+        started = z3.BoolVal(bool(env.get('pet_called')))
+        cont_ok = z3.Implies(more, z3.BoolVal(n_et >= 1)) if more is not None else z3.BoolVal(False)
+        P.append(tagged('C15,C05', 'sectors terminated early by this deadline are assessed: with no work pending before, fee assessment starts now and is continued by a callback if unfinished',
+                        z3.Implies(env['et0_empty'] if is_sym(env['et0_empty']) else z3.BoolVal(bool(env['et0_empty'])), z3.And(started, cont_ok))))
     P.append(tagged('C05', 'exactly one next proving-deadline callback while funds remain, none otherwise', z3.If(cont, len(pd) == 1, len(pd) == 0)))
     P.append(tagged('C05', 'cron flag cleared exactly when the miner goes idle', z3.Implies(z3.Not(cont), z3.Not(active if is_sym(active) else z3.BoolVal(bool(active))))))
     for e_ in pd:
